@@ -259,6 +259,23 @@ def load_findings(prop):
     return [f for f in json.loads(p.read_text()) if f["property"] == prop]
 
 
+def run_script_witness(ctx, finding, timeout=120):
+    """witness given as a stand-alone script (corpus/findings/*.py: public API only, exit 1 = the defect shows, exit 0 = it
+    does not), run against the tree under test"""
+    w = finding.get("witness") or {}
+    if "script" not in w:
+        return False
+    env = dict(os.environ, PYTHONPATH=str(REPO / "src"))
+    p = subprocess.run(["/venv/bin/python", str(VERIF / w["script"])], capture_output=True, text=True, timeout=timeout, env=env, cwd=str(ctx.tmpdir()))
+    ctx.count("script_witness", f"{finding['id']}:rc={p.returncode}")
+    if p.returncode == 1:
+        tail = " | ".join(l for l in p.stdout.strip().splitlines()[-3:])
+        ctx.monitor_fail(finding["key"], f"{tail} [witness of {finding['id']}: {w['script']}]", {"script": w["script"]})
+    elif p.returncode != 0:
+        ctx.notes.append(f"witness script of {finding['id']} could not run (rc={p.returncode}): {(p.stderr or p.stdout)[-300:]}")
+    return True
+
+
 # --------------------------------------------------------------------------
 # evidence + verdict
 
